@@ -326,8 +326,9 @@ class LRI(dict):
                 return True
             if len(other) != len(self):
                 return False
-            if not isinstance(other, LRI):
-                return other == self
+            # (no `other == self` here: for a plain dict, or anything that
+            # does not implement the comparison, the interpreter would
+            # call this method right back with the same operands)
             return super().__eq__(other)
 
     def __ne__(self, other):
